@@ -3,6 +3,8 @@
 A case = {"cols": [(thr, [targets], dyn, hint)], "ops": [op, ...]} with op one of
   ("new",) ("drop",c) ("open",t,d) ("close",t,k) ("setglobal",t,c) ("emit",t,cs) ("probe",t,cs)
   ("getdefault",t,cs|None) ("getcurrent",t) ("rebuild",) ("flip",c) ("panic",t,[d,...])
+  ("emitcb",t,cs,k,cs2)   emission whose receiving collector's callback does k: 0 nothing, 1 panics (caught), 2 emits cs2 re-entrantly,
+                          3 emits cs2 then panics  (model: Dispatch/Reentry.v, C02 only)
 Encodings are those of coq/theories/Dispatch/Model.v and harness/dispatch/src/bin/h_dispatch.rs:
 dispatcher d: 0 = Dispatch::none(), c+1 = collector c; interest 0/1/2; level / filter rank 0..5 (0 = OFF).
 """
@@ -13,7 +15,7 @@ import sys
 import vlib
 
 REQUIRES = ("From Coq Require Import NArith List String.\nImport ListNotations.\n"
-            "From TV Require Import Dispatch.Model Dispatch.Shape Dispatch.Source.\nLocal Open Scope N_scope.")
+            "From TV Require Import Dispatch.Model Dispatch.Shape Dispatch.Reentry Dispatch.Source.\nLocal Open Scope N_scope.")
 KIND_NUM = {"span": 0, "event": 1, "hint": 2}
 
 
@@ -162,10 +164,16 @@ def coq_op(pool, o):
     raise ValueError(o)
 
 
-def coq_case(pool, case):
+def coq_xop(pool, o):
+    if o[0] == "emitcb":
+        return "XEmitCb %d %s (mk_cb %d %s)" % (o[1], coq_cs(pool, o[2]), o[3], coq_cs(pool, o[4]))
+    return "XBase (%s)" % coq_op(pool, o)
+
+
+def coq_case(pool, case, x=False):
     cols = "[" + "; ".join("mk_fspec %d [%s] %d %d" % (thr, "; ".join(map(str, tg)), dyn, hint) for thr, tg, dyn, hint in case["cols"]) + "]"
     ops, _ = expand(case["ops"])
-    return "(%s, [%s])" % (cols, "; ".join(coq_op(pool, o) for o in ops))
+    return "(%s, [%s])" % (cols, "; ".join((coq_xop if x else coq_op)(pool, o) for o in ops))
 
 
 # ------------------------------------------------------------------------------------------------
@@ -210,23 +218,26 @@ def run_impl_one(binpath, case):
 # ------------------------------------------------------------------------------------------------
 # model side
 
-def run_model(ctx, pool, smax, cases, fx, what=("run",), tag="cases", chunk=40):
-    """Evaluates run_case (and optionally spec_case / f1_case) on every case.  Returns {id: {'run':..,'spec':..,'f1':..}}."""
+def run_model(ctx, pool, smax, cases, fx, what=("run",), tag="cases", chunk=40, x=False):
+    """Evaluates the model (and optionally spec_case / f1_case) on every case.  x=True: the re-entrancy model of Dispatch/Reentry.v
+    (ops may include emitcb); the specification / F1 monitor then see the history with the callbacks forgotten (`erase`).
+    Returns {id: {'run':..,'spec':..,'f1':..}}."""
     ids = list(cases)
     terms = []
+    base = "erase (snd c)" if x else "snd c"
     for i in range(0, len(ids), chunk):
         part = ids[i:i + chunk]
-        lits = "; ".join(coq_case(pool, cases[c]) for c in part)
+        lits = "; ".join(coq_case(pool, cases[c], x) for c in part)
         fields = []
         if "run" in what:
-            # the variant is Source.src_fx, i.e. what the translator read on this run (fx is only cross-checked, see check_source_summary)
-            fields.append("src_run_case %d (fst c) (snd c)" % smax)
+            # the variant is Source.src_fx (and src_unwind_resets), i.e. what the translator read on this run (fx is only cross-checked, see check_source_summary)
+            fields.append(("src_xrun_case %d (fst c) (snd c)" if x else "src_run_case %d (fst c) (snd c)") % smax)
         if "spec" in what:
-            fields.append("spec_case (snd c)")
+            fields.append("spec_case (%s)" % base)
         if "f1" in what:
-            fields.append("f1_case %d (fst c) (snd c)" % smax)
+            fields.append("f1_case %d (fst c) (%s)" % (smax, base))
         body = fields[0] if len(fields) == 1 else "(" + ", ".join(fields) + ")"
-        terms.append(("k%d" % i, "map (fun c : list fspec * list op => %s) [%s]" % (body, lits)))
+        terms.append(("k%d" % i, "map (fun c : list fspec * list %s => %s) [%s]" % ("xop" if x else "op", body, lits)))
     res = vlib.coq_eval(ctx, REQUIRES, terms, tag=tag, shards=min(vlib.NCPU, max(1, len(terms))))
     out = {}
     for i in range(0, len(ids), chunk):
@@ -271,6 +282,17 @@ def expected_from_model(pool, case, mrun):
             e["r"] = head[2]
         elif head[0] == 6:
             e["d"] = head[1]
+        elif head[0] == 7:
+            # emitcb: [7, consulted, delivered, nested (0 none / 1 nobody / c+2), panicked, max]
+            p = pool[o[2]]
+            if head[2] > 0:
+                e["del"] = [[head[2] - 1, KIND_NUM[p["kind"]], p["lvl"], p["tgt"]]]
+            if head[3] >= 2:
+                q = pool[o[4]]
+                e["del"].append([head[3] - 2, KIND_NUM[q["kind"]], q["lvl"], q["tgt"]])
+            e["panic"] = head[4]
+        elif head[0] == 8:
+            e["d"] = -2          # get_current returned None
         exp.append(e)
     return exp
 
@@ -283,7 +305,7 @@ def diff_case(pool, case, impl_recs, mrun):
     for i, (r, e) in enumerate(zip(impl_recs, exp)):
         got = {"k": r["k"], "max": r["max"], "del": r["del"], "bad": r.get("bad", 0)}
         want = {"k": e["k"], "max": e["max"], "del": e["del"], "bad": e["bad"]}
-        for f in ("c", "ok", "r", "d", "unwound"):
+        for f in ("c", "ok", "r", "d", "unwound", "panic"):
             if f in e:
                 want[f] = e[f]
                 got[f] = r.get(f)
